@@ -29,8 +29,8 @@ NPROC = os.cpu_count() or 16
 
 TIERS = {
     # explore: list of (first worker id, workers, runs per worker, concurrency bias %, restart-before-run %)
-    "quick": dict(explore=[(0, 10, 3000, 30, 75), (50, 1, 2000, 30, 10), (60, 1, 2000, 30, 1), (100, 4, 1400, 90, 75)], seconds_cap=90, sweeps=1, hash_orders=8, determinism_runs=150, miri_seeds=0, max_minimise=3, fresh_sample=48, hot_keys=2, stress=(300, 5, 14)),
-    "thorough": dict(explore=[(0, 10, 3000, 30, 75), (50, 1, 2000, 30, 10), (60, 1, 2000, 30, 1), (100, 4, 1400, 90, 75), (1000, 10, 40000, 30, 75), (1050, 1, 30000, 30, 10), (1060, 1, 30000, 30, 1), (2000, 4, 12000, 90, 75)], seconds_cap=540, sweeps=8, hash_orders=64, determinism_runs=400, miri_seeds=16, max_minimise=6, fresh_sample=256, hot_keys=8, stress=(300, 8, 150)),
+    "quick": dict(explore=[(0, 10, 3000, 30, 75), (50, 1, 2000, 30, 10), (60, 1, 2000, 30, 1), (100, 4, 1400, 90, 75)], seconds_cap=90, sweeps=1, hash_orders=8, determinism_runs=150, miri_seeds=0, max_minimise=3, fresh_sample=48, hot_keys=2, stress=(300, 5, 14), longrun=(2, 200000)),
+    "thorough": dict(explore=[(0, 10, 3000, 30, 75), (50, 1, 2000, 30, 10), (60, 1, 2000, 30, 1), (100, 4, 1400, 90, 75), (1000, 10, 40000, 30, 75), (1050, 1, 30000, 30, 10), (1060, 1, 30000, 30, 1), (2000, 4, 12000, 90, 75)], seconds_cap=540, sweeps=8, hash_orders=64, determinism_runs=400, miri_seeds=16, max_minimise=6, fresh_sample=256, hot_keys=8, stress=(300, 8, 150), longrun=(4, 1200000)),
 }
 
 
@@ -622,6 +622,11 @@ def run_check(tier, seed):
         jobs.append(("hashorder%d" % i, [BIN, "hashorder", "--seed", str(seed), "--index", str(i), "--out", out], out))
     out = os.path.join(work, "hotkey.json")
     jobs.append(("hotkey", [BIN, "hotkey", "--seed", str(seed), "--keys", str(cfg["hot_keys"]), "--out", out], out))
+    # long-history sub-check: the same N distinct queries in one long-lived process, one order per process
+    (lr_procs, lr_n) = cfg["longrun"]
+    for i in range(lr_procs):
+        out = os.path.join(work, "longrun_%d.json" % i)
+        jobs.append(("longrun%d" % i, [BIN, "longrun", "--seed", str(seed), "--index", str(i), "--n", str(lr_n), "--out", out, "--answers", os.path.join(work, "longrun_%d.txt" % i)], out))
     explore_ids = []
     for (w0, nw, runs, conc, rpct) in cfg["explore"]:
         for w in range(w0, w0 + nw):
@@ -643,7 +648,7 @@ def run_check(tier, seed):
     # run everything, NPROC at a time, longest first
     def job_rank(j):
         n = j[0]
-        for i, pre in enumerate(("sweep", "hotkey", "explore", "stress", "det", "hashorder")):
+        for i, pre in enumerate(("longrun", "sweep", "hotkey", "explore", "stress", "det", "hashorder")):
             if n.startswith(pre):
                 return i
         return 9
@@ -684,6 +689,7 @@ def run_check(tier, seed):
     sweeps = []
     hashres = None
     hashparts = []
+    longruns = []
     for name, (rc, se, out) in results.items():
         if name.startswith("det"):
             continue
@@ -712,6 +718,10 @@ def run_check(tier, seed):
                     cands.append({"obligation": "P", "key": "", "detail": v["detail"], "history": v["history"], "source": "sweep %d" % d["index"]})
                 else:
                     cands.append(sweep_candidate(v, d))
+        elif d["mode"] == "longrun":
+            longruns.append(d)
+            for v in d["violations"]:
+                cands.append({"obligation": "P", "key": "", "detail": v["detail"], "history": v["history"], "source": "long-history process %d" % d["index"]})
         elif d["mode"] == "hotkey":
             HOT["stats"] = {k: d[k] for k in ("keys", "lookups_per_key", "evaluations", "wall_s")}
             for v in d["violations"]:
@@ -720,6 +730,32 @@ def run_check(tier, seed):
             hashparts.append(d)
             for v in d["violations"]:
                 cands.append({"obligation": "P", "key": "", "detail": v["detail"], "history": v["history"], "source": "hashorder process %d" % d["index"]})
+
+    # long-history sub-check: the processes asked the same queries in different orders; every answer
+    # must be the same in all of them
+    longruns.sort(key=lambda d: d["index"])
+    LONG["stats"] = None
+    if longruns and not any(d["violations"] for d in longruns):
+        tabs = []
+        for d in longruns:
+            with open(os.path.join(work, "longrun_%d.txt" % d["index"])) as f:
+                tabs.append([ln.split(" ", 2) for ln in f.read().splitlines()])
+        if len(set(len(t) for t in tabs)) != 1 or len(tabs[0]) != longruns[0]["n"]:
+            harness.append("long-history processes returned tables of different length")
+        else:
+            bad = []
+            for i in range(len(tabs[0])):
+                a0 = tabs[0][i][0]
+                for k in range(1, len(tabs)):
+                    if tabs[k][i][0] != a0:
+                        rows = sorted(((int(tabs[j][i][1]), longruns[j]["index"], tabs[j][i][0]) for j in range(len(tabs))), reverse=True)
+                        bad.append((rows[0][0], tabs[0][i][2], rows))
+                        break
+            bad.sort()
+            for (latest, key, rows) in bad[:3]:
+                # most suspicious first: the process in which the query came latest
+                cands.append({"obligation": "A", "key": key, "detail": "long-history processes disagree: " + ", ".join("process %d answered %s at position %d" % (ix, ans, at) for (at, ix, ans) in rows), "history": "run threads=1 policy=seq sched=0 hash=0 reset=1\nt0 q %s\nend\n" % key, "source": "long-history sub-check", "prefix_of": [("longrun", seed, ix, at, longruns[0]["n"]) for (at, ix, ans) in rows]})
+            LONG["stats"] = {"processes": len(longruns), "orders": ["forwards", "backwards", "shuffled", "shuffled"][:len(longruns)], "queries_per_process": longruns[0]["n"], "evaluations": sum(d["evaluations"] for d in longruns), "refused_per_process": longruns[0]["refused"], "queries_per_family": longruns[0]["queries_per_family"], "month_memo_entries_at_end": [d["month_memo_entries_after"] for d in longruns], "answers_that_differ_between_processes": len(bad), "wall_s": [d["wall_s"] for d in longruns]}
 
     # hash-order sub-check: every process (own hasher seed from its first instruction on) must give
     # the answers of process 0 (seed 0, which is also what the cold singleton uses)
@@ -857,6 +893,7 @@ def run_check(tier, seed):
     t_report = time.time()
     report_budget = 200  # seconds for confirming and minimising everything together
     pinned_once = [False]
+    prefix_done = [False]
     for c in cands:
         if confirmed and time.time() - t_report > report_budget:
             break
@@ -871,6 +908,22 @@ def run_check(tier, seed):
         tlog("confirming %s %s (%d bytes of history)" % (c["obligation"], c["key"], len(c["history"])))
         good, info = shows(sim, c["history"], c)
         tlog("confirmed=%s" % good)
+        if not good and c.get("prefix_of") and prefix_done[0]:
+            continue  # one whole-prefix history per check: the later records of a sweep show the same memo
+        if not good and c.get("prefix_of"):
+            # the short history suggested by a sweep record does not show it: take everything the
+            # sweep had asked up to that request (a bounded memo misbehaves only when it is full)
+            for alt in c["prefix_of"]:
+                full = history_prefix(work, *alt)
+                if not full:
+                    continue
+                tlog("retrying with the whole history prefix of %s %d (%d requests)" % (alt[0], alt[2], full.count("\n")))
+                good, info = shows(sim, full, c)
+                tlog("confirmed=%s" % good)
+                if good:
+                    c["history"] = full
+                    prefix_done[0] = True
+                    break
         if not good:
             unconfirmed.append(c)
             continue
@@ -962,12 +1015,22 @@ def sweep_candidate(v, d):
         hist = "run threads=1 policy=seq sched=0 hash=0 reset=1\nt0 q LM.from_ym %s %s\nt0 q %s\nend\n" % (m.group(1), m.group(2), key)
     if hist is None:
         hist = "run threads=1 policy=seq sched=0 hash=0 reset=1\nt0 q %s\nt0 q %s\nend\n" % (key, key)
-    return {"obligation": v["obligation"], "key": key, "detail": "sweep %d position %d: got %s, expected %s" % (d["index"], v["position"], v.get("got", "")[:120], v.get("expected", "")[:120]), "history": hist, "source": "sweep %d" % d["index"]}
+    return {"obligation": v["obligation"], "key": key, "detail": "sweep %d position %d: answered %s there; asked again now %s, expected %s" % (d["index"], v["position"], v.get("got_class", "?"), v.get("got", "")[:120], v.get("expected", "")[:120]), "history": hist, "source": "sweep %d" % d["index"], "prefix_of": [("sweep", d["seed"], d["index"], v["position"], 0)]}
+
+
+def history_prefix(work, mode, seed, index, position, n):
+    out = os.path.join(work, "%s_prefix_%d_%d.txt" % (mode, index, position))
+    p = subprocess.run([BIN, mode, "--seed", str(seed), "--index", str(index), "--dump-upto", str(position), "--out", out] + (["--n", str(n)] if mode == "longrun" else []), capture_output=True, text=True)
+    if p.returncode != 0 or not os.path.exists(out):
+        return None
+    with open(out) as f:
+        return f.read()
 
 
 MIRI_RESULT = {"stats": None}
 FRESH = {"compared": 0, "distinct_keys": 0}
 HOT = {"stats": None}
+LONG = {"stats": None}
 STRESS = {"workers": []}
 
 
@@ -999,7 +1062,7 @@ def write_evidence(tier, seed, t0, explore, sweeps, hashres, det_ok, det_n, cros
     runs = tot("runs")
     wall = time.time() - t0
     sim_wall = max([d["wall_s"] for d in explore] + [0.001])
-    evaluations = tot("evaluations") + sum(s["evaluations"] for s in sweeps) + (hashres["evaluations"] if hashres else 0) + ((HOT["stats"] or {}).get("evaluations", 0))
+    evaluations = tot("evaluations") + sum(s["evaluations"] for s in sweeps) + (hashres["evaluations"] if hashres else 0) + ((HOT["stats"] or {}).get("evaluations", 0)) + ((LONG["stats"] or {}).get("evaluations", 0))
     lock_names = explore[0]["lock_names"] if explore else []
     samples = []
     for d in explore[:4]:
@@ -1022,6 +1085,7 @@ def write_evidence(tier, seed, t0, explore, sweeps, hashres, det_ok, det_n, cros
         "refinement_checks_from_ym_vs_new": tot("r_checks") + sum(s["evaluations"] for s in sweeps),
         "value_handle_evaluations": tot("handle_evaluations"),
         "hot_key_sweep": HOT["stats"],
+        "long_history_sub_check": LONG["stats"],
         "stress_sub_check_os_scheduled": {"workers": len(STRESS["workers"]), "runs": sum(d["runs"] for d in STRESS["workers"]), "evaluations_compared": sum(d["cold_comparisons"] for d in STRESS["workers"]), "wall_s_per_worker": max([d["wall_s"] for d in STRESS["workers"]] + [0]), "note": "threads released together, no baton; not deterministic; findings are confirmed by repeated replay"},
         "fresh_process_sample": {"evaluations_compared_with_the_same_query_alone_in_a_new_process": FRESH["compared"], "distinct_keys": FRESH["distinct_keys"]},
         "cross_process": {"pool_keys_seen_in_2plus_processes": cross_keys_multi, "comparisons": cross_compared, "processes": len(explore)},
